@@ -56,13 +56,13 @@ def pyInt (v : Str) : Outcome PyValue :=
   | '+' :: ds => (match natOfDigits ds with | some n => .ok (.int n) | none => .ok .unmodelled)
   | ds => (match natOfDigits ds with | some n => .ok (.int n) | none => .ok .unmodelled)
 
-/-- `date.fromisoformat("YYYY-MM-DD")` : ValueError for a day the month does not have -/
+/-- `date.fromisoformat("YYYY-MM-DD")` : ValueError for a day the month does not have, and for year 0000 (MINYEAR = 1) -/
 def pyDate (v : Str) : Outcome PyValue :=
   match v with
   | [y1, y2, y3, y4, '-', m1, m2, '-', d1, d2] =>
       (match natOfDigits [y1, y2, y3, y4], natOfDigits [m1, m2], natOfDigits [d1, d2] with
        | some y, some m, some d =>
-           if 1 ≤ m ∧ m ≤ 12 ∧ 1 ≤ d ∧ d ≤ daysInMonth y m then .ok (.date y m d) else .foreign "ValueError"
+           if 1 ≤ y ∧ 1 ≤ m ∧ m ≤ 12 ∧ 1 ≤ d ∧ d ≤ daysInMonth y m then .ok (.date y m d) else .foreign "ValueError"
        | _, _, _ => .ok .unmodelled)
   | _ => .ok .unmodelled
 
@@ -100,7 +100,7 @@ def pyDateTime (v : Str) : Outcome PyValue :=
   | y1 :: y2 :: y3 :: y4 :: '-' :: m1 :: m2 :: '-' :: d1 :: d2 :: _sep :: rest =>
       (match natOfDigits [y1, y2, y3, y4], natOfDigits [m1, m2], natOfDigits [d1, d2], parseClock rest with
        | some y, some mo, some d, some (h, mi, s, us, tz) =>
-           if ¬ (1 ≤ mo ∧ mo ≤ 12 ∧ 1 ≤ d ∧ d ≤ daysInMonth y mo) then .foreign "ValueError"
+           if ¬ (1 ≤ y ∧ 1 ≤ mo ∧ mo ≤ 12 ∧ 1 ≤ d ∧ d ≤ daysInMonth y mo) then .foreign "ValueError"
            else
              (match tz with
               | [] => .ok (.datetime y mo d h mi s us none)
